@@ -2040,3 +2040,95 @@ def unit_record(ctx):
                                               'opener / closer resets: from the second unit on the record holds a running total, not the size of the unit' % (oi, sf[0]))
     if n == 0:
         ctx.anchor_missing('per-unit counters of XZWriter / LZIPWriter')
+
+
+# --------------------------------------------------------------------------- VARINT-TWIN (C02, C03) - round 12
+
+def _abs_expr(f, e, depth=0):
+    """expression with local names replaced by their types (so a renamed variable does not matter)"""
+    if not isinstance(e, tuple) or depth > 10:
+        return '?'
+    k = e[0]
+    if k == 'const':
+        return str(e[2])
+    if k == 'local':
+        return '<%s>' % f.local_ty(e[1])
+    if k == 'param':
+        return '<param>'
+    if k == 'cast':
+        return _abs_expr(f, e[2], depth + 1)
+    if k == 'field' and e[1][0] == 'bin' and e[2] == '0':
+        return _abs_expr(f, e[1], depth + 1)
+    if k == 'bin':
+        return '(%s %s %s)' % (_abs_expr(f, e[2], depth + 1), e[1].replace('WithOverflow', ''), _abs_expr(f, e[3], depth + 1))
+    if k == 'un':
+        return '%s(%s)' % (e[1], _abs_expr(f, e[2], depth + 1))
+    return '<%s>' % k
+
+
+@rule('VARINT-TWIN', ['C02', 'C03'], floor=2)
+def varint_twin(ctx):
+    """The XZ multibyte integer has two decoders: one over a slice (block header fields) and one over a reader (index
+    records). They are twins: what one rejects the other rejects. For each function that ORs `(byte & 0x7F) << shift`
+    into a u64 result, the set of data-dependent rejecting conditions inside its loop (comparisons, with variables
+    abstracted to their types, whose one edge leads to an Err without returning to the loop) is extracted; the sets must
+    be equal. A 'hardening' check added to one twin only (`bits == 0 && shift > 0`: it rejects the valid continuation
+    byte 0x80, i.e. every index value with an all-zero middle group - 16384, 65536, 1 MiB) makes the reader refuse
+    files its own writer produced, while every test of the other twin passes."""
+    F = ctx.facts
+    twins = []
+    for f in F.fns:
+        if f.kind == 'closure' or 'Result<u64' not in str(f.d.get('output')) or not f.loops():
+            continue
+        prov = Prov(f)
+        hit = False
+        for bi, b in enumerate(f.blocks):
+            for si, s in enumerate(b['stmts']):
+                if s['k'] == 'assign' and s['rv']['r'] == 'bin' and s['rv']['op'] == 'BitAnd':
+                    k = op_const_v(s['rv'].get('b')) if 'op_const_v' in globals() else None
+                    e = prov.rvalue(s['rv'], 0, '%d:%d' % (bi, si))
+                    if e[3][0] == 'const' and e[3][2] == 0x7F:
+                        hit = True
+        if hit:
+            twins.append((f, prov))
+    if len(twins) < 2:
+        return ctx.anchor_missing('two multibyte-integer decoders (functions -> Result<u64> with a loop masking bytes with 0x7F)')
+    sets = {}
+    for f, prov in twins:
+        conds = set()
+        loops = f.loops()
+        body = set().union(*loops.values())
+        heads = set(loops)
+        for sb in sorted(body):
+            e = switch_edges(f, sb)
+            if e is None:
+                continue
+            cond = prov.operand(f.blocks[sb]['term']['discr'], 0, '%d:T' % sb)
+            c = cond
+            while c[0] == 'un' and c[1] == 'Not':
+                c = c[2]
+            if c[0] != 'bin' or c[1] not in ('Eq', 'Ne', 'Lt', 'Le', 'Gt', 'Ge'):
+                continue
+            for pol, tgt in ((True, e[1]), (False, e[0])):
+                reach = f.reach_from([tgt], stop=heads) | {tgt}
+                if reach & heads:
+                    continue
+                builds_err = any(s['k'] == 'assign' and s['lhs']['l'] == 0 and s['rv']['r'] == 'agg' and s['rv'].get('variant_name') == 'Err'
+                                 for b in reach for s in f.blocks[b]['stmts'])
+                back = any(h in f.reach_from([tgt]) for h in heads)
+                if builds_err and not back:
+                    nc = norm_cmp(cond, pol)
+                    conds.add('%s %s %s' % (_abs_expr(f, nc[1]), nc[0], _abs_expr(f, nc[2])) if nc else _abs_expr(f, cond))
+        sets[f.key] = (f, conds)
+    ref_key = sorted(sets)[0]
+    ref = sets[ref_key][1]
+    for k in sorted(sets):
+        f, conds = sets[k]
+        key = '%s:rejects-what-its-twin-rejects' % k
+        if conds == ref and conds:
+            ctx.ok(key, f.loc(0), 'rejecting conditions inside the loop: %s' % sorted(conds))
+        elif not conds:
+            ctx.violation(key, f.loc(0), 'no data-dependent rejection found in the decoder loop: anchor lost (fail closed)')
+        else:
+            ctx.violation(key, f.loc(0), 'this decoder rejects under %s, its twin %s under %s: one of them refuses encodings the other (and the writer) '
+                          'treats as valid' % (sorted(conds ^ ref), ref_key, sorted(ref)))
